@@ -396,6 +396,9 @@ def dsp_monitor(items, keys, out, delays=None, debounce=None, maxwin=None):
 def gen_dsp(rng):
     n = rng.choice([0, 1, 2, 3, 4, 5, 6])
     items = list(range(10, 10 + n))
+    if rng.random() < 0.5:
+        rng.shuffle(items)        # arrival order is not the order of the item values: ties between equal keys must be
+                                  # broken by ARRIVAL (stable sort), never by comparing the items themselves
     ks = [rng.randrange(6) for _ in items]
     keys = {v: k for v, k in zip(items, ks)}
     debounce = rng.choice([0.25, 0.5, 1.0])
